@@ -427,6 +427,12 @@ func (X *Exec) callFunction(fr *Frame, ins ssa.Instruction, callee *ssa.Function
 	if r, ok := X.specialCall(fr, ins, callee, key, cc, st, args); ok {
 		return r
 	}
+	if X.E.BV && !inRepo {
+		if r, ok := X.bvExtern(key, args, st); ok {
+			X.UsedTrusted["bv-mode meaning of "+key]++
+			return r
+		}
+	}
 	var fs *FuncSpec
 	if inRepo {
 		fs = X.E.Specs.Funcs[key]
